@@ -395,9 +395,10 @@ func (c *c03gen) script(maxStmts, depth int) []ast.Statement {
 	names := perm[:k-1]
 	var out []ast.Statement
 	for i := 0; i < k; i++ {
+		// names that are not yet defined here: those of later statements and the statement's own
 		c.later = nil
-		if i+1 < k-1 {
-			c.later = names[i+1:]
+		if i < k-1 {
+			c.later = names[i:]
 		}
 		var e ast.Expr
 		q := c.r(100)
@@ -615,6 +616,8 @@ func genC03(g *Gen) {
 		"x = 1 << 08\nreturn x", "return [08]", "return 1 << 4 + [3]", "return 1 << 4 + [5]",
 		"a = 1 + 1\n = a + 1", "a=1+1\r\nreturn a", "a=1+1\n\nreturn a", "\treturn\t1\t", "returnx", "return1", "return (1)",
 		"x = 1 + 1\nreturn x + x << 1", "_ = 1 + 1\n__ = _ + 1\nreturn __ + _",
+		// a statement that uses its own name
+		"x = x + 1\nreturn x << 2", "acc = acc shl 5 add 1\nreturn acc", "a = 1 + 1\nb = (a + b) + 1\nreturn b", "x = x\nreturn x", "x = 2*x\nreturn x + 1",
 	} {
 		c03Case(g, s)
 		g.Count("fixed")
